@@ -9,6 +9,8 @@ type callbackMgr[T any] struct {
 	p *Params[T]
 
 	ch <-chan userCallbackEvent
+	// done is closed when the monitor goroutine has exited
+	done <-chan struct{}
 }
 
 type userCallbackEvent interface {
@@ -69,7 +71,18 @@ func (cbm *callbackMgr[T]) runCBs(ctx context.Context) {
 	lastVersion := (*T)(nil)
 	defer verifPoint("cb.exit")
 	verifPoint("cb.take")
-	for ev := range cbm.ch {
+	for {
+		var ev userCallbackEvent
+		select {
+		case ev = <-cbm.ch:
+		case <-cbm.done:
+			// the monitor is gone: handle what is already queued, then stop
+			select {
+			case ev = <-cbm.ch:
+			default:
+				return
+			}
+		}
 		switch e := ev.(type) {
 		case *watchErrorEvent[T]:
 			if cbm.p.OnWatchedError != nil {
